@@ -1241,6 +1241,28 @@ def np_modf(I, args, kw):
     return (Arr(a.shape, lambda *idx: src(*idx) - z3.ToReal(trunc(src(*idx))), "real", "modf.frac"), Arr(a.shape, lambda *idx: z3.ToReal(trunc(src(*idx))), "real", "modf.int"))
 
 
+@model(np.isfinite)
+def np_isfinite(I, args, kw):
+    v = args[0]
+    if isinstance(v, (int, float)) and not isinstance(v, SV):
+        return bool(np.isfinite(v))
+    theory.use("T-fp.reals: symbolic reals are finite")
+    if isinstance(v, Arr):
+        return Arr(v.shape, lambda *idx: z3.BoolVal(True), "bool", "isfinite")
+    return True
+
+
+@model(np.isinf)
+def np_isinf(I, args, kw):
+    v = args[0]
+    if isinstance(v, (int, float)) and not isinstance(v, SV):
+        return bool(np.isinf(v))
+    theory.use("T-fp.reals: symbolic reals are finite")
+    if isinstance(v, Arr):
+        return Arr(v.shape, lambda *idx: z3.BoolVal(False), "bool", "isinf")
+    return False
+
+
 @model(np.dot)
 def np_dot(I, args, kw):
     return matmul(I, args[0], args[1])
